@@ -441,22 +441,64 @@ def currently_exiting_context(frame: types.FrameType) -> Optional[ExitingContext
             if not backtrack_over_load_none():
                 return None
         # offs is now the instruction right before the first LOAD_CONST.
-        # We expect this to be the last instruction that is covered
-        # by the exception handler block that unwinds to call this context's
-        # __exit__ in the exception case. Possible exceptions to that rule:
+        # The normal-path __exit__ call is not itself covered by the
+        # exception table entry that unwinds to this context's __exit__ in
+        # the exception case, but every instruction from which control
+        # reaches it is still inside the with block's body, so it is
+        # covered. Usually that's the instruction laid out just before the
+        # call sequence, but not if the body ends in something like
+        # 'if cond: return' or a try/except: then the compiler puts other
+        # code there and the body's ending *jumps* to the call sequence. So
+        # look at all the places control can come from. Two instructions
+        # that can precede the LOAD_CONSTs belong to the call sequence
+        # rather than to the body:
         # - sometimes there's a SWAP before the LOAD_CONSTs
         # - if the with stmt has no body, there might be a NOP to attach
         #   line number information to
-        # Neither of these are covered by the exception handler block.
-        for _, end, target, *_ in _parse_exception_table(frame.f_code):
-            if end == offs or (
-                end == offs - 2 and code[offs] in (op["SWAP"], op["NOP"])
-            ):
-                return ExitingContext(is_async=is_async, cleanup_offset=target)
+        sequence_starts = {offs + 2}
+        if code[offs] in (op["SWAP"], op["NOP"]):
+            sequence_starts.add(offs)
+            offs -= 2
+        predecessors = []
+        fallthrough = offs
+        while fallthrough and code[fallthrough] == op["CACHE"]:
+            fallthrough -= 2
+        if dis.opname[code[fallthrough]] not in (
+            # fmt: off
+            "RETURN_VALUE", "RETURN_CONST", "RERAISE", "RAISE_VARARGS",
+            "JUMP_FORWARD", "JUMP_BACKWARD", "JUMP_BACKWARD_NO_INTERRUPT",
+            # fmt: on
+        ):
+            predecessors.append(offs)
+        for insn in dis.get_instructions(frame.f_code):
+            if (
+                insn.opcode in dis.hasjrel or insn.opcode in dis.hasjabs
+            ) and insn.argval in sequence_starts:
+                predecessors.append(insn.offset)
+
+        # From each of those places, follow the chain of exception handlers
+        # outward. Any inner 'with' has been exited by then, so the first
+        # handler we meet that is a context manager cleanup handler
+        # (PUSH_EXC_INFO, WITH_EXCEPT_START) belongs to the block whose
+        # __exit__ is being called here.
+        table = list(_parse_exception_table(frame.f_code))
+        for current in predecessors:
+            for _ in range(len(table) + 1):  # pragma: no branch
+                for start, end, target, *_ in table:
+                    if start <= current <= end:
+                        break
+                else:
+                    break
+                if (
+                    code[target] == op["PUSH_EXC_INFO"]
+                    and code[target + 2] == op["WITH_EXCEPT_START"]
+                ):
+                    return ExitingContext(is_async=is_async, cleanup_offset=target)
+                current = target
         warnings.warn(
             f"Surprise during analysis of {frame.f_code!r}: couldn't find an "
-            f"exception table entry ending at {offs} just before the call to "
-            f"__exit__ -- please file a bug",
+            f"exception table entry for the with block whose __exit__ is "
+            f"being called near {offs} -- please file a bug",
             InspectionWarning,
         )
         return None
